@@ -21,7 +21,8 @@
 (*       amount, limits, outgoing-channel set (incl. one of several        *)
 (*       parallel channels), last hop, ignored node, ignored pair; one     *)
 (*       request in three pays a private node "p" behind one or two route  *)
-(*       hints (parallel, or from different nodes).                        *)
+(*       hints (parallel, from different nodes, or a CHAINED route hint    *)
+(*       x -> y -> p through a second private node y).                     *)
 (* The draws use TLC's RandomElement, so every action has one successor    *)
 (* and `-seed` reproduces the behaviours.                                  *)
 (***************************************************************************)
@@ -61,10 +62,14 @@ RandPolicy(id, from, to, cap, bw) ==
    delta    |-> Pick(<<1, 3, 9, 18, 40>>),
    disabled |-> Pick(<<0, 0, 0, 0, 0, 0, 0, 0, 0, 0, 0, 0, 0, 1>>)]
 
-\* a route hint: private channel towards a node that is not in the graph; no capacity, no inbound fee
+\* a hop hint of an invoice (zpay32.HopHint): private channel towards a node that is not in the graph;
+\* it carries fee base, fee rate and CLTV delta only - no capacity, no min/max HTLC, no inbound fee.
+\* rh = index of the route hint the hop hint belongs to: the hop hints of one route hint are CHAINED
+\* (x -> y -> target, y private as well) and listed in forward order.
 HintCap == 2000000000
-RandHint(id, from, to) ==
-  [RandPolicy(id, from, to, HintCap, HintCap) EXCEPT !.inBase = 0, !.inRate = 0, !.disabled = 0]
+RandHint(id, from, to, rh) ==
+  [rh |-> rh] @@ [RandPolicy(id, from, to, HintCap, HintCap) EXCEPT !.inBase = 0, !.inRate = 0, !.disabled = 0,
+                                                                   !.minHtlc = 0, !.maxHtlc = 0]
 
 NoFocus == [amt |-> 50000, fee |-> 0, tl |-> 40, dst |-> "b", first |-> 1, last |-> "a", fd |-> 9]
 
@@ -152,15 +157,19 @@ Ask ==
      \E ig \in {Pick(<<{}, {}, {}, {}, {}, {}, {}, {RandomElement(Nodes)}>>) \ {Src, dst}} :
      \E ip \in {Pick(<<{}, {}, {}, {}, {}, {}, {}, {RandomElement(Pairs)}>>)} :
      \E hf \in {Pick(<<focus.dst, focus.dst, RandomElement(Nodes \ {Src})>>)} :
-     \E hs \in {Pick(<<{}, {}, {}, {}, {}, {},
-                       {RandHint(100, hf, "p")},
-                       {RandHint(100, hf, "p"), RandHint(101, hf, "p")},
-                       {RandHint(100, hf, "p"), RandHint(101, RandomElement(Nodes \ {Src}), "p")}>>)} :
-       LET q == [src |-> Src, dst |-> IF hs = {} THEN dst ELSE "p", amt |-> Max(amt, 1),
+     \E h2 \in {RandomElement(Nodes \ {Src})} :
+     \E hs \in {Pick(<< <<>>, <<>>, <<>>, <<>>, <<>>, <<>>, <<>>, <<>>,
+                       <<RandHint(100, hf, "p", 1)>>,
+                       <<RandHint(100, hf, "p", 1), RandHint(101, hf, "p", 2)>>,
+                       <<RandHint(100, hf, "p", 1), RandHint(101, h2, "p", 2)>>,
+                       <<RandHint(100, hf, "y", 1), RandHint(101, "y", "p", 1)>>,
+                       <<RandHint(100, hf, "y", 1), RandHint(101, "y", "p", 1)>>,
+                       <<RandHint(100, hf, "y", 1), RandHint(101, "y", "p", 1), RandHint(102, h2, "p", 2)>> >>)} :
+       LET q == [src |-> Src, dst |-> IF hs = <<>> THEN dst ELSE "p", amt |-> Max(amt, 1),
                  feeLimit |-> Max(fl, -1),
                  cltvLimit |-> IF cl < 0 THEN -1 ELSE Max(cl, focus.fd + 1),
                  outChans |-> SetSeq(oc), lastHop |-> IF lh = dst /\ dst # Src THEN "" ELSE lh,
-                 ignNodes |-> SetSeq(ig), ignPairs |-> SetSeq(ip), hints |-> SetSeq(hs),
+                 ignNodes |-> SetSeq(ig), ignPairs |-> SetSeq(ip), hints |-> hs,
                  finalDelta |-> focus.fd, height |-> Height]
        IN /\ req' = q
           /\ hist' = Append(hist, [a |-> "Query", req |-> q])
